@@ -32,9 +32,13 @@ package topics
 //@ func (t *Topic) unsubscribeID
 //@   requires lock_free_on_entry: !held(t.mu)
 //@   requires subscriber_keeps_receiving: ghost_draining == 1
+// The drainer keeps receiving until the topic has closed the channel: it
+// returns only after a receive has reported the channel closed.
 //@ func (s *Subscription) Close$1
 //@   goroutine
+//@   modifies heap
 //@   ghost draining := 1
+//@   ensures drains_until_closed: ghost_loc_lastRecvOk == 0
 //@   lockcheck
 //@   modifies heap
 //@ func (s *Subscription) Channel
